@@ -545,4 +545,38 @@ example : 3 < exS.atoms.length ∧ 4 < exS.atoms.length
 example : SameRes exS 0 3 := by decide
 example : SameMol exS 0 3 := ⟨[0, 1, 2, 3], by decide, by decide, by decide⟩
 
+/-! ## the result is a function of the atoms and bonds handed in, not of their history
+
+Input molecules may have been through `make_bonds` before and still carry `mol_idx` and
+`_res_serial`.  The model reads neither (`InAtom.label` overwrites the first, the loop over
+residues the second), so two inputs that differ only in such leftovers give the same system
+and hence the same result; and every atom of the union is labelled with the position of its
+input molecule in *this* call. -/
+
+theorem run_ignores_leftovers (ms ms' : List InMol) (ff : FF) (radii : List (String × Nat))
+    (an ad : Bool) (p q : Nat) (h : ms.map InMol.erase = ms'.map InMol.erase) :
+    sysOf ms ff radii an ad p q = sysOf ms' ff radii an ad p q
+      ∧ run (sysOf ms ff radii an ad p q) = run (sysOf ms' ff radii an ad p q) := by
+  have e : unionFrom 0 0 ms = unionFrom 0 0 ms' := by
+    rw [← unionFrom_erase ms, ← unionFrom_erase ms', h]
+  have : sysOf ms ff radii an ad p q = sysOf ms' ff radii an ad p q := by
+    unfold sysOf; rw [e]
+  exact ⟨this, by rw [this]⟩
+
+theorem union_labels_by_position (ms : List InMol) (ff : FF) (radii : List (String × Nat))
+    (an ad : Bool) (p q : Nat) :
+    (sysOf ms ff radii an ad p q).atoms.map (·.mol) = molTags 0 ms :=
+  unionFrom_mols ms 0 0
+
+-- two waters with the same chain/number/name that both carry `mol_idx = 0` from earlier runs
+example :
+    let w (sm : Option Nat) (x : Int) : InMol :=
+      { atoms := [{ staleMol := sm, staleSerial := sm, chain := some "A", resid := some 1, resname := some "WAT",
+                    icode := none, name := some "OW", element := some "O", x := x, y := 0, z := 0 }],
+        edges := [] }
+    [w (some 0) 0, w (some 0) 50000].map InMol.erase = [w none 0, w none 50000].map InMol.erase
+      ∧ (sysOf [w (some 0) 0, w (some 0) 50000] [] [("O", 152)] true true 6 5).atoms.map (·.mol) = [0, 1]
+      ∧ (run (sysOf [w (some 0) 0, w (some 0) 50000] [] [("O", 152)] true true 6 5)).mols = [[0], [1]] := by
+  decide
+
 end C10
